@@ -58,6 +58,31 @@ check('C28', 'exhaustive enumeration of clause sets x request lists x all assign
       'the ILP blocking constraint is checked to exclude exactly the previous solution.',
       'Gurobi absent: the text, not a solver run, is checked; pycryptosat as SAT oracle.', 'DESIGN.md section 4, C28')
 
+DESIGN_NOTE = ('reference model vt/ref.py (documented semantics; readings where under-specified, DESIGN.md section 3); bounds: designs of the '
+               'stated strata with <= 400 (quick) / 4000 (thorough) valid sequences; pycryptosat as SAT oracle')
+
+check('C02', 'bounded-exhaustive design-space enumeration; per design the real IterateSATGen loop is run to exhaustion and compared with a brute-force reference set',
+      'Every design of strata S1-S6 (single CrossBlock with every constraint class, Exclude, weights, window geometry, Repeat, MultiCrossBlock, Nest) '
+      'is built from fresh objects; IterateSATGen is asked for more sequences than exist and the returned multiset must equal the complete '
+      'reference multiset (so: nothing invalid, nothing missing, nothing twice, [] iff none).', DESIGN_NOTE, 'DESIGN.md section 4, C02')
+
+check('C07', 'bounded-exhaustive design-space enumeration; differential exhaustion of two independent samplers (no oracle)',
+      'Every design of strata S1-S6 that both IterateSATGen and RandomGen accept is exhausted through both (fresh blocks) and the two sets of '
+      'name-level sequences and the trial counts must be equal.', 'no reference model involved; designs with <= 400/4000 sequences; exceptions on either side are C08 subject and skipped here',
+      'DESIGN.md section 4, C07')
+
+check('C08', 'bounded-exhaustive design-space enumeration incl. an edge stratum; every strategy called on every accepted design in a crash-isolating worker pool',
+      'Every accepted design of strata S1-S6 and the edge stratum S9 (k >= T, k >= repetition length, Pin out of range, one-level factors, empty '
+      'crossing, everything excluded) x {IterateSATGen, RandomGen, CMSGen, UniGen, IterateGen, UniformGen} x n in {1,3} with the real solvers must '
+      'return a list: any exception, and any termination of the interpreter (detected by the worker pool), is a violation.',
+      'constructor refusals (RuntimeError/ValueError at construction) mean "not accepted"; refusal whitelist empty', 'DESIGN.md section 4, C08')
+
+check('C16', 'bounded-exhaustive design-space enumeration; reported trial count vs documented arithmetic; one sequence per strategy measured',
+      'For every design of strata S1-S6 Block.trials_per_sample() must equal the trial count the reference computes from the documented rules '
+      '(weights, exclusions with require_complete_crossing=False, preamble, MinimumTrials, alignment/mode, Repeat, Nest), and one sequence from '
+      'each of the seven strategies (SMGen where it does not refuse) must have exactly that many entries in every column.',
+      DESIGN_NOTE + '; designs the documentation gives no sequences (complete crossing impossible) are skipped', 'DESIGN.md section 4, C16')
+
 
 def build():
     props = [json.loads(l) for l in (ROOT / 'properties.jsonl').read_text().splitlines() if l.strip()]
